@@ -27,7 +27,7 @@ type PropSpec struct {
 	Technique   string
 	// NotApplicable, when non-empty, lists the property under not_applicable with this reason.
 	NotApplicable string
-	Rules       func(r *Run)
+	Rules         func(r *Run)
 }
 
 var registry = map[string]*PropSpec{}
